@@ -69,6 +69,8 @@ class ServiceModel:
     def implemented(self, session: int, sid: int) -> bool:
         if sid in (0x10, 0x11):
             return True
+        if sid == 0x3E and sid not in self.table:
+            return True  # the model always answers the plain keep-alive
         return sid in self.table and session in self.table[sid][0]
 
     def respond(self, session: int, req: bytes) -> tuple[bytes | None, int]:
